@@ -211,6 +211,14 @@ Definition spec_errors (T : table) (db : database) (e : expr) : list error :=
   (if d_panel db then map EVarOutsideTraj (check_panel T e) else []) ++
   audit T db e.
 
+(* BIOGEME(database, {'log_like': formula, ...}): the panel rule of the constructor sits in the branch
+   "formulas is an Expression" only; it is not applied to formulas given in a dictionary *)
+Definition spec_errors_dict (T : table) (db : database) (e : expr) : list error :=
+  (match prepare [e] (d_cols db) with None => [EDuplicate] | Some _ => [] end) ++
+  map EDrawsOutside (check_draws T e) ++
+  map ERvOutside (check_rv T e) ++
+  audit T db e.
+
 (* Expression.get_value_and_derivatives(gradient, hessian, bhhh) *)
 Definition request_errors (gradient hessian bhhh : bool) : list error :=
   if (hessian || bhhh) && negb gradient then [EHessianNoGradient] else [].
